@@ -126,7 +126,7 @@ REJECTS = (
 )
 
 VALID_TOKENS = ("1", "2.5", "-3", "0", "10.25", "min", "max", "mean", "std", "+", "-", "*", "/", "(", ")")
-INVALID_TOKENS = ("std\n", "mean\n", ")\n", "+\n", "\nmax", "min\r", "foo", "min2", "mean*2", "sqrt", "^", "%", "max,", "(1", "2)", "Mean", "MIN", "st", "x", "1+1", "pi", "e", "**", "//", "[", "abs")
+INVALID_TOKENS = ("+-", "*/", "()", "-*", "", "std\n", "mean\n", ")\n", "+\n", "\nmax", "min\r", "foo", "min2", "mean*2", "sqrt", "^", "%", "max,", "(1", "2)", "Mean", "MIN", "st", "x", "1+1", "pi", "e", "**", "//", "[", "abs")
 
 
 def gen_stats(rng):
